@@ -256,8 +256,8 @@ def regular(m):
 # generation
 # --------------------------------------------------------------------------------------
 
-DIRS = ["d", "build", "sub", "d/build", "d/e"]
-DIR_BASENAMES = {"d", "build", "sub", "e"}
+DIRS = ["d", "build", "sub", "d/build", "d/e", "d-x", "d2", "sub2", "d/e.x", "build.old"]  # incl. look-alikes: one path a string prefix of the other
+DIR_BASENAMES = {"d", "build", "sub", "e", "d-x", "d2", "sub2", "e.x", "build.old"}
 FILES = ["a", "b.log", "c.tmp", "keep.log", "notes"]
 PATTERN_POOL = ["a", "build", "notes", "b.log", "*.log", "*.tmp", "d/a", "d/build", "build/a", "d/b.log", "d", "sub", "!keep.log", "!d/b.log", "!*.tmp", "!d/keep.log", "!build"]
 HISTORY_WEIGHTS = {"write": 5, "mkdir": 3, "mkdir_disk": 2, "symlink": 1, "add": 3, "smart_add": 1, "commit": 2, "rename": 2, "move": 1, "remove": 2}
@@ -265,7 +265,7 @@ HISTORY_WEIGHTS = {"write": 5, "mkdir": 3, "mkdir_disk": 2, "symlink": 1, "add":
 
 def make_names(rng):
     dirs = rng.sample(DIRS, rng.randint(1, 3))
-    if "d/build" in dirs or "d/e" in dirs:
+    if any(x.startswith("d/") for x in dirs):
         if "d" not in dirs:
             dirs.append("d")
     names = set(dirs)
@@ -404,7 +404,7 @@ def gen_litter(rng, m, env, g):
             f = rng.choice(FILES + ["x.~1~", "a.moved", "a.THIS"])
             push({"l": "file", "p": posixpath.join(d, f) if d else f, "n": g.fresh()})
         elif r < 0.6:
-            f = rng.choice(["build", "d", "sub", "e", "tmp"])
+            f = rng.choice(["build", "d", "sub", "e", "tmp", "d-x", "d2", "sub2", "e.x", "build.old"])
             push({"l": "dir", "p": posixpath.join(d, f) if d else f})
         elif r < 0.7:
             targets = [q for q in dirs_now if q]
@@ -451,6 +451,21 @@ def gen_calls(rng, m, env, g):
                 calls.append({"paths": [missing], "recurse": rng.random() < 0.7, "n": g.fresh(), "bad": 1})
                 continue
         paths = []
+        # several named directories, one path a proper string prefix of the other without
+        # being its parent (d + d-x, sub + sub2, d/e + d/e.x): both must be walked
+        pairs = [(a, b) for a in dirs for b in dirs if a and b != a and b.startswith(a) and not T.inside(a, b)]
+        if pairs and r > 0.6:
+            a, b = rng.choice(pairs)
+            paths = [a, b] if rng.random() < 0.5 else [b, a]
+            if rng.random() < 0.3:
+                paths.append(rng.choice(dirs))
+            call = {"paths": list(dict.fromkeys(paths)), "recurse": True, "n": g.fresh()}
+            st, new, _r = model_smart_add(m, env, call["paths"], True)
+            if st == "ok":
+                for q in new:
+                    m.inv[q] = (sa_id(call["n"], q) if m.flavour == "bzr" else None, m.dkind(q))
+            calls.append(call)
+            continue
         if r < 0.45:
             paths.append("")
         for _ in range(rng.randint(0 if paths else 1, 3)):
